@@ -578,6 +578,12 @@ class Sign(Engine):
         r, s, rec, high = self._expect_sig(k, digest, nonce)
         if r == 0 or s == 0:
             return
+        bad_first = a['perturb'] % 5 == 0
+        if bad_first:
+            # an unrelated, properly refused operation just before: a key that is not on the curve (it may
+            # leave an error queued inside OpenSSL; that is nobody else's business)
+            K.CPubKey(b'\x02' + b'\xff' * 32).is_fullyvalid
+            ctx.fault('refused-key-parse-before-signing')
         self.nonces.queue = [nonce]
         try:
             sig64 = SM.SignMessage(k['sec'], msg)
@@ -618,6 +624,9 @@ class Sign(Engine):
                           hdr_kind=('own' if hdr == raw[0] else 'altered'), **det)
         ctx.probe('library-recovery-all-header-flavours')
         addr = W.P2PKHBitcoinAddress.from_pubkey(K.CPubKey(k['pub']))
+        if bad_first or a['perturb'] % 7 == 0:
+            K.CPubKey(b'\x04' + b'\x01' * 64).is_fullyvalid
+            ctx.fault('refused-key-parse-before-verifying')
         try:
             ok = SM.VerifyMessage(addr, msg, sig64)
         except Exception as e:
